@@ -506,6 +506,10 @@ class ConfigValidator:
         """Assert that value is within boundaries for numeric template."""
         if param:
             param = param.split(",")
+            if value != value:
+                # NaN compares false with everything and would slip through both limits
+                raise self.validation_error(item, validation_failure_info,
+                                            "{} is not inside {} to {}".format(value, param[0], param[1]))
             if param[0] != "NONE" and value < float(param[0]):
                 raise self.validation_error(item, validation_failure_info,
                                             "{} is smaller then {}".format(value, param[0]))
